@@ -4,7 +4,7 @@
     arbitrary function with outputs of the reference length (no injectivity). *)
 From Coq Require Import List NArith ZArith Bool Lia.
 Import ListNotations.
-Require Import Aurora.Consts Aurora.C02.Model Aurora.C02.Spec Aurora.C02.Main.
+Require Import Aurora.Consts Aurora.C02.Model Aurora.C02.Spec Aurora.C02.Cursor Aurora.C02.CursorPipe Aurora.C02.Main.
 
 (** side conditions on the constants of the Go source, re-checked on every run:
     the values the property text names (256 KiB, 8192, 8-byte span, 32-byte
@@ -51,6 +51,34 @@ Theorem C02_at_source_constants : forall (H : bytes -> bytes),
 Proof. exact (at_source_constants consts_ok_C02). Qed.
 Print Assumptions C02_at_source_constants.
 
+(** the same for the pipeline over the code's own data structure — ONE byte buffer of
+    [buflen] bytes shared by all levels and nine cursors, writes to level i+1 overwriting
+    the consumed prefix of level i ([cupload], Cursor.v / CursorPipe.v; refinement in
+    CursorProofs.v / CursorMain.v).  The buffer must hold eight full levels. *)
+Theorem C02_equals_spec_code : forall (H : bytes -> bytes) (cs b refLen buflen : nat),
+  (0 < cs)%nat -> (2 <= b)%nat -> (forall x, length (H x) = refLen) ->
+  (8 * Z.of_nat b * (Z.of_nat refLen + 8) <= Z.of_nat buflen)%Z ->
+  forall segs : list bytes,
+  (Z.of_nat (length (concat segs)) + Z.of_nat cs + 8 < 2 ^ 63)%Z ->
+  (length (chunks_of cs (concat segs)) <= b ^ 7)%nat ->
+  exists u, cupload H cs b refLen buflen segs = Ok u
+            /\ spec_hash H cs b (concat segs) = Some (u_root u)
+            /\ u_rets u = map (fun s => Z.of_nat (length s)) segs.
+Proof. exact equals_spec_code. Qed.
+Print Assumptions C02_equals_spec_code.
+
+(** at the constants of the Go source, with the buffer size of NewHashTrieWriter
+    (ChunkWithSpanSize*9*2; the room for eight levels is a checked side condition) *)
+Theorem C02_at_source_constants_code : forall (H : bytes -> bytes),
+  (forall x, length (H x) = HashSize) ->
+  forall segs : list bytes,
+  (Z.of_nat (length (concat segs)) < 2 ^ 63 - 262152)%Z ->
+  exists u, cupload H ChunkSize Branches HashSize BufLen segs = Ok u
+            /\ spec_hash H ChunkSize Branches (concat segs) = Some (u_root u)
+            /\ u_rets u = map (fun s => Z.of_nat (length s)) segs.
+Proof. exact (at_source_constants_code consts_ok_C02). Qed.
+Print Assumptions C02_at_source_constants_code.
+
 (** non-vacuity: a concrete 2-byte "hash", chunk size 2, branching 2, a content of
     9 bytes (five chunks, four levels with a carried-over last chunk) written in
     three pieces *)
@@ -62,5 +90,8 @@ Example C02_hyps_satisfiable :
   (length (chunks_of 2 (concat segs)) <= 2 ^ 7)%nat /\
   option_map u_root (match upload ex_H 2 2 2 segs with Ok u => Some u | Err _ => None end)
     = spec_hash ex_H 2 2 (concat segs) /\
-  (exists r, spec_hash ex_H 2 2 (concat segs) = Some r).
-Proof. vm_compute. repeat split; try reflexivity; try lia. eexists; reflexivity. Qed.
+  (exists r, spec_hash ex_H 2 2 (concat segs) = Some r) /\
+  (8 * Z.of_nat 2 * (Z.of_nat 2 + 8) <= Z.of_nat 160)%Z /\
+  option_map u_root (match cupload ex_H 2 2 2 160 segs with Ok u => Some u | Err _ => None end)
+    = spec_hash ex_H 2 2 (concat segs).
+Proof. vm_compute. repeat split; try reflexivity; try lia; try discriminate. eexists; reflexivity. Qed.
